@@ -11,7 +11,7 @@
 //! interleaving; HeadMove event log (hook H4) is a chain of strictly increasing work; after the threads joined the
 //! head is a max-work block of everything stored, the state equals the reference ledger's replay of that chain,
 //! `validate(false)` passes and the pool is the pool some sequential order would leave: jointly valid against the
-//! final head, no two entries spending the same output, nothing that is already on the best chain.
+//! final head, no two entries spending the same output.
 
 use grin_chain::types::{BlockStatus, ChainAdapter, NoopAdapter, Options};
 use grin_chain::{Chain, SyncState, SyncStatus};
@@ -1107,17 +1107,9 @@ fn execute_run(run: &Run, k: u64, sc: &Scratch, small: bool) {
 				}
 			}
 		}
-		let head_hash = chain.head().map(|t| t.last_block_h).unwrap_or(w.genesis.hash());
-		let best_kernels: HashSet<Hash> = {
-			let h = w.hist.lock().unwrap();
-			h.ledger.kernels_of(&head_hash).iter().map(|k| k.hash()).collect()
-		};
-		for tx in txs.iter().chain(stem.iter()) {
-			if tx.kernels().iter().any(|k| best_kernels.contains(&k.hash())) {
-				ctx.viol("final_pool_holds_a_transaction_of_the_best_chain", "a kernel of a pool entry is already on the final best chain".to_string());
-				break;
-			}
-		}
+		// (a pool entry whose kernel is already on the best chain is NOT judged: the generated histories re-create spent
+		// commitments, after which the transaction that spent the original is valid once more — a replay the pool accepts)
+		let _ = &stem;
 		if !txs.is_empty() {
 			match catch(|| transaction::aggregate(&txs)) {
 				Err(p) => ctx.panic("aggregate(pool)", &p),
@@ -1182,7 +1174,7 @@ const RULE: &str = "run = one node wired as servers/src/grin/server.rs wires it 
 	tx_kernel_received, pool sizes). sched_point (hook H3) perturbs the chain's lock and commit points with the run's seed. After join: \
 	sequential re-delivery of blocks not stored, HeadMove log is a chain of strictly increasing work over stored known blocks, final head has \
 	the greatest total difficulty among stored blocks, state == reference ledger replay of the head's chain, validate(false) Ok, pool entries \
-	pairwise input-disjoint, none already on the best chain, aggregate valid and valid against the final head. Watchdog as in c17. One \
+	pairwise input-disjoint, aggregate valid and valid against the final head. Watchdog as in c17. One \
 	evaluation = one run; distinct = distinct (HeadMove order with threads, block_accepted order with threads); non-trivial = two threads moved the head.";
 
 fn main() {
